@@ -535,7 +535,7 @@ def oracle(scn, sim, C):
     if L is not None:
         if L['target_real'] != L['lock_real']:
             bad.append(('helper started on a path that is not the lock file',
-                        'holder in <W>, jugdir %r (%s): lock file <W>/%s; helper started with cwd=%r and path argument %r '
+                        'holder in <W>, jugdir %r (%s): lock file %s; helper started with cwd=%r and path argument %r '
                         'addresses %s' % (rel_to(sim.jugdir, sim.wdir), sim.via, rel_to(sim.lockpath, sim.wdir), rel_to(L['popen_cwd'], sim.wdir),
                                           rel_to(L['arg'], sim.wdir), rel_to(L['target'], sim.wdir))))
     obs = [o for o in sim.outs if o[0] in ('locked', 'failed', 'cleaned', 'get')]
